@@ -1,6 +1,6 @@
 ---------------------------- MODULE Trace_Search -----------------------------
 (* Trace validation for C16. *)
-EXTENDS TraceBase, Search, Fix
+EXTENDS TraceBase, Search, ProFormaText, Fix
 VARIABLE l
 
 FindFails(ev) ==
@@ -34,7 +34,15 @@ Fails(ev) == IF ev.out # "ret" THEN {"raised_" \o ev.out}
                     [] ev.op = "unordered" -> UnorderedFails(ev)
                     [] ev.op = "ordered" -> OrderedFails(ev)
                     [] OTHER -> {"unknown_op"}
-Dev(ev) == ""
+(* C16_UnorderedComparesText: the order-insensitive test counts the WRITTEN form of every residue with its          *)
+(* modifications, so two spellings of one modified residue - the same modifications listed in another order,        *)
+(* "[1]" against "[1.0]" - are different residues for it (they are equal for ==, for the ordered search and for      *)
+(* coverage).  Exactly: the answer is bag inclusion of the per-residue texts.                                        *)
+ResidueTextBag(A) == Bag([ p \in 1..NRes(A) |-> A.seq[p] \o ModsText(ModsAt(A, p - 1), "[", "]", FALSE) ])
+Dev_C16_UnorderedComparesText(ev) ==
+    /\ ev.op = "unordered" /\ ev.out = "ret"
+    /\ ev.res = BagIncluded(ResidueTextBag(ev.Q), ResidueTextBag(ev.T))
+Dev(ev) == IF "C16_UnorderedComparesText" \in Devs /\ Dev_C16_UnorderedComparesText(ev) THEN "C16_UnorderedComparesText" ELSE ""
 Init == l = 1 /\ ResetCounters
 Next == /\ l <= NEvents
         /\ LET f == Fails(Events[l]) IN Record(Events[l], MkVerdict(f, IF f = {} THEN "" ELSE Dev(Events[l])))
